@@ -76,6 +76,9 @@ pub fn unmarshal_header(cursor: &mut Cursor) -> UnmarshalResult<Header> {
     };
     let flags = cursor.read_u8()?;
     let version = cursor.read_u8()?;
+    if version != 1 {
+        return Err(UnmarshalError::InvalidProtocolVersion);
+    }
     let body_len = cursor.read_u32(byteorder)?;
     let serial =
         NonZeroU32::new(cursor.read_u32(byteorder)?).ok_or(UnmarshalError::InvalidSerial)?;
